@@ -317,3 +317,30 @@ pub fn hist_strategy(cfg: HistCfg) -> BoxedStrategy<Hist> {
         .prop_map(move |(chunks, nc)| decode_hist(&cfg, &chunks, nc))
         .boxed()
 }
+
+impl Hist {
+    /// "add (f2 $a $b); add (f2 $b $a); union 0 1"
+    pub fn from_script(lang: LangId, script: &str) -> Result<Hist, String> {
+        let sig = lang.sig();
+        let mut ops = Vec::new();
+        for cmd in script.split(';') {
+            let cmd = cmd.trim();
+            if cmd.is_empty() {
+                continue;
+            }
+            let (op, rest) = cmd.split_once(' ').unwrap_or((cmd, ""));
+            match op {
+                "add" => ops.push(HOp::Add(parse_tm_text(&sig, rest)?)),
+                "union" => {
+                    let v: Vec<usize> = rest.split_whitespace().filter_map(|x| x.parse().ok()).collect();
+                    if v.len() != 2 {
+                        return Err(format!("bad union: {cmd}"));
+                    }
+                    ops.push(HOp::Union(v[0], v[1]));
+                }
+                _ => return Err(format!("unknown command {op}")),
+            }
+        }
+        Ok(Hist { lang, naming: Naming::Alpha, ops })
+    }
+}
